@@ -66,6 +66,11 @@ pub trait Subject: Sync {
     fn streaming(&self) -> bool {
         true
     }
+    /// Offsets of the LF bytes that end a line for the purpose of error locations (default: every
+    /// LF; a mixed text/binary format excludes the LF-valued bytes of its binary section).
+    fn line_breaks(&self, input: &[u8]) -> Vec<usize> {
+        input.iter().enumerate().filter(|(_, &b)| b == b'\n').map(|(i, _)| i).collect()
+    }
     /// Offsets at which a line gated source may stop (default: after every LF).
     fn boundaries(&self, input: &[u8]) -> Vec<usize> {
         let mut v: Vec<usize> = input.iter().enumerate().filter(|(_, &b)| b == b'\n').map(|(i, _)| i + 1).collect();
